@@ -5,7 +5,9 @@ U30 = 1073741824
 
 OPQ_MODELS = {
     'datetime': {'year': 'int', 'month': 'int', 'day': 'int', 'hour': 'int', 'minute': 'int', 'second': 'int', 'microsecond': 'int',
-                 'astimezone': 'method', '__isinstance__': {'datetime': True}},
+                 'astimezone': 'method', 'replace': 'method', 'tzinfo': 'opq:tzinfo', 'utcoffset': 'method:opq:timedelta',
+                 '__isinstance__': {'datetime': True, 'Number': False, 'numbers.Number': False, 'str': False}},
+    'tzinfo': {'__isinstance__': {}}, 'timedelta': {'__isinstance__': {}},
     'float': {'__isinstance__': {'float': True, 'Number': True, 'numbers.Number': True}, 'is_integer': 'method:bool'},
 }
 
